@@ -8,7 +8,8 @@ RULE = ("dbhist: histories with frequent flushes, compact_range calls and reopen
         "invariant lsm_wf_b (levels >= 1 sorted and disjoint, bounds exactly first/last entry, smallest "
         "<= largest, file numbers unique, recency order) and the SSTables / NumFilesAtLevel descriptors "
         "are cross-checked against the dump. vfn: VersionBuilder::apply_changes on random versions and "
-        "edits. proto: every manifest record the code writes (snapshot records with the bounds of every "
+        "edits. seek: a key in tables at two levels and more than 100 freshly positioned iterators, so "
+        "that a seek-triggered compaction is picked from iterator read samples. proto: every manifest record the code writes (snapshot records with the bounds of every "
         "file included) must equal, field by field, the record the protocol model derives. "
         "Non-trivial: at least one write; distinct by sha1.")
 TRUSTED = ["the structural dump hook DB::verif_dump (cfg raindb_verif) reports the current version; file contents are read back through the real Table reader"]
@@ -22,8 +23,31 @@ def gen_cases(tier, rng):
     return [dbh.gen_history(rng, i, rng.choice([40, 80, 160, 300]), w) for i in range(n)]
 
 
+def gen_seek(tier, rng):
+    """seek-triggered compactions: a key present in tables at two different levels, then more
+    than 100 freshly positioned iterators (each takes one read sample and charges the younger
+    table); the compaction that follows must leave a well-formed shape"""
+    cases = []
+    n = 4 if tier == "quick" else 150
+    beyond = "Cx7a7a7a7a:x7a7a7a7a7a"           # flushes the memtable, touches no table
+    for i in range(n):
+        lo, hi = "x%02x" % rng.randrange(0x41, 0x50), "x%02x" % rng.randrange(0x60, 0x7a)
+        toks = ["s%d" % i, "1048576:2097152:%d:%d" % (rng.choice([256, 4096]), rng.randrange(2))]
+        layers = rng.choice([2, 2, 3])
+        for l in range(layers):
+            toks += ["P%s=%s" % (lo, dbh.rval(rng, 60)), "P%s=%s" % (hi, dbh.rval(rng, 60))]
+            if rng.random() < 0.4:
+                toks.append("P%s=%s" % ("x%02x" % rng.randrange(0x50, 0x60), dbh.rval(rng, 30)))
+            toks += [beyond, "W"]
+        toks += ["V", "X", "A", "T", "M%d" % rng.choice([100, 101, 120, 230]), "W", "V", "X", "A", "T"]
+        if rng.random() < 0.5:
+            toks += ["O1048576:2097152:4096:%d" % rng.randrange(2), "V", "X", "A", "T", "M%d" % rng.choice([100, 150]), "W", "V", "X", "A", "T"]
+        cases.append(" ".join(toks))
+    return cases
+
+
 def suites(tier, seed, rng):
-    return [dbh.DbSuite(dbh.corpus("C10") + dbh.corpus("C01") + gen_cases(tier, rng)),
+    return [dbh.DbSuite(dbh.corpus("C10") + dbh.corpus("C01") + gen_cases(tier, rng) + gen_seek(tier, rng)),
             vfn.VfnSuite("vfn", vfn.gen(tier, rng, {"apply"}), lambda i, s, c: True),
             codec.CodecSuite("codec", codec.gen(tier, rng, ("V",)), lambda i, s, c: True),
             proto.ProtoSuite([proto.gen_history(rng, i, rng.choice([12, 25, 40])) for i in range(16 if tier == "quick" else 800)])]
